@@ -8,7 +8,11 @@
     - [blen id = SRTLA_ID_LEN] (the Rust type `&[u8; SRTLA_ID_LEN]`) for the REG builders;
     - [length info = 6] (the six fields of `ConnectionInfo`) for the extended keepalive builder;
     - [blen b + 4 < two64] (a Rust slice is shorter than 2^63) for the `while` loop of parse_srtla_ack,
-      whose index arithmetic the translation checks for overflow.
+      whose index arithmetic the translation checks for overflow; [blen b + 8 < two64] and [bytes_ok b] for
+      parse_srt_nak (two index steps per iteration; `& 0x8000_0000` / `&= 0x7fff_ffff` against the hand
+      model's comparison and subtraction);
+    - [4 + 4 * blen acks < two64] for create_ack_packet (the checked `4 + 4 * acks.len()`; a `&[u32]` is
+      shorter than 2^61 elements).
     The proofs do not depend on the shape of the generated terms: both sides are unfolded, every
     [get b i] is split into its outcomes (out-of-range outcomes are discharged from the length guards
     in force when they are provably impossible, and otherwise must agree on both sides), every
@@ -78,6 +82,9 @@ Proof.
   rewrite <- Z.lxor_lor by exact Hl. symmetry. apply Z.add_nocarry_lxor. exact Hl.
 Qed.
 
+Lemma wland_ones x m n : 0 <= n -> m = 2 ^ n - 1 -> Z.land x m = x mod 2 ^ n.
+Proof. intros Hn ->. rewrite <- Z.land_ones by exact Hn. rewrite Z.ones_equiv. reflexivity. Qed.
+
 Lemma wshl8_low t : ((Z.shiftl t 8) mod two64) mod 256 = 0.
 Proof.
   rewrite Z.shiftl_mul_pow2 by lia. unfold two64. change (2 ^ 8) with 256. lia.
@@ -115,6 +122,9 @@ Ltac wire_get b i :=
 
 Ltac wire_step :=
   match goal with
+  (* a checked `+`/`*` (`if y <? 2^64 then .. else Oob`) that the bounds in force rule out: no case split *)
+  | |- context [if (?y <? 18446744073709551616) then _ else _] =>
+      replace (y <? 18446744073709551616) with true by (symmetry; apply Z.ltb_lt; lia)
   (* closed index arithmetic (unrolled loops): 2 + (0 + 1)  ~>  3 *)
   | |- context [get ?b ?i] =>
       lazymatch i with Z0 => fail | Zpos _ => fail | Zneg _ => fail | _ => idtac end;
@@ -126,6 +136,11 @@ Ltac wire_step :=
   | |- context [Z.land ?m ?x] =>
       is_zlit m; let n := eval vm_compute in (Z.log2 m) in
       rewrite (Z.land_comm m x), (wland_pow2 x m n) by first [reflexivity | lia]
+  (* x & (2^n - 1)  ~>  x mod 2^n *)
+  | |- context [Z.land ?x ?m] =>
+      is_zlit m; let n := eval vm_compute in (Z.log2 (m + 1)) in
+      let p := eval vm_compute in (2 ^ n) in
+      rewrite (wland_ones x m n) by first [reflexivity | lia]; change (2 ^ n) with p
   (* top bit of a bounded value is a comparison *)
   | |- context [Z.testbit ?x ?n] =>
       is_zlit n; let lo := eval vm_compute in (2 ^ n) in
@@ -241,6 +256,67 @@ Proof.
   all: wire_close.
 Qed.
 
+(** Nested `while` of parse_srt_nak.  The inner loop (`while seq <= end && out.len() < 1000`) is its own
+    fuelled Fixpoint over (out, seq), started with the fuel the translator read off the `out.len() < K`
+    conjunct, S (K - len out); the first lemma shows that this fuel is never exhausted (every iteration
+    pushes) and that the result is the hand model's [nak_expand].  The outer loop is as for
+    parse_srtla_ack. *)
+Lemma blen_snoc (l : list Z) x : blen (l ++ [x]) = blen l + 1.
+Proof. unfold blen. rewrite app_length. cbn [length]. lia. Qed.
+
+Lemma leaf_wire_parse_srt_nak_loop2_ok fuel : forall en out seq,
+  (Z.to_nat (Wire.NAK_RANGE_CAP - blen out) < fuel)%nat ->
+  exists s, leaf_wire_parse_srt_nak_loop2 fuel en out seq
+            = Ok (Wire.nak_expand (Z.to_nat (Wire.NAK_RANGE_CAP - blen out)) seq en out, s).
+Proof.
+  unfold Wire.NAK_RANGE_CAP.
+  induction fuel as [|fuel IH]; intros en out seq Hf; [lia|].
+  cbn [leaf_wire_parse_srt_nak_loop2]. cbv zeta.
+  match goal with |- context [if ?c then _ else _] => destruct c eqn:C end.
+  - pose proof (blen_snoc out seq) as Hl.
+    match goal with |- context [leaf_wire_parse_srt_nak_loop2 fuel ?e ?o ?s] =>
+      destruct (IH e o s) as [s' Hs]; [lia|]; exists s'; rewrite Hs end.
+    rewrite Hl.
+    replace (Z.to_nat (1000 - blen out)) with (S (Z.to_nat (1000 - (blen out + 1)))) by lia.
+    cbn [Wire.nak_expand]. replace (seq <=? en) with true by lia. reflexivity.
+  - exists seq. do 2 f_equal.
+    destruct (Z.to_nat (1000 - blen out)) eqn:E; cbn [Wire.nak_expand]; [reflexivity|].
+    replace (seq <=? en) with false by lia. reflexivity.
+Qed.
+
+(* equality of two applications whose arguments are equal up to linear arithmetic / byte ranges *)
+Ltac eq_args := repeat first [ reflexivity | lia | wire_range | f_equal ].
+
+Lemma leaf_wire_parse_srt_nak_loop1_ok fuel : forall b i out,
+  bytes_ok b -> 0 <= i <= blen b -> blen b + 8 < two64 ->
+  res_map fst (leaf_wire_parse_srt_nak_loop1 fuel b out i) = Wire.nak_loop fuel b i out.
+Proof.
+  induction fuel as [|fuel IH]; intros b i out Hbytes Hi Hb; [reflexivity|].
+  unfold two64 in Hb.
+  cbn [leaf_wire_parse_srt_nak_loop1 Wire.nak_loop].
+  cbv beta zeta delta [bind Wire.be32_at two64 two31 Wire.NAK_RANGE_CAP].
+  repeat wire_step.
+  all: try (match goal with |- context [leaf_wire_parse_srt_nak_loop2 ?f ?e ?o ?s] =>
+         let s' := fresh "s" in let Hs := fresh "Hs" in
+         destruct (leaf_wire_parse_srt_nak_loop2_ok f e o s) as [s' Hs];
+         [unfold Wire.NAK_RANGE_CAP; lia|]; unfold Wire.NAK_RANGE_CAP in Hs; rewrite Hs; cbv beta iota end).
+  all: first [ wire_close | rewrite IH by first [assumption | unfold two64; lia]; eq_args ].
+Qed.
+
+Lemma leaf_wire_parse_srt_nak_ok b :
+  bytes_ok b -> blen b + 8 < two64 -> Wire.parse_srt_nak b = leaf_wire_parse_srt_nak b.
+Proof.
+  intros Hbytes Hb.
+  cbv beta zeta delta [Wire.parse_srt_nak leaf_wire_parse_srt_nak].
+  wire_unfold.
+  repeat wire_step.
+  all: try (rewrite <- (leaf_wire_parse_srt_nak_loop1_ok (S (length b)) b) by first [assumption | unfold two64 in *; lia];
+            unfold res_map;
+            match goal with |- context [leaf_wire_parse_srt_nak_loop1 ?f ?b ?o ?j] =>
+              destruct (leaf_wire_parse_srt_nak_loop1 f b o j) as [[? ?]| |] end).
+  all: wire_close.
+Qed.
+
 (** ---- builders.rs ----
     The hand-written builders are plain list functions (they cannot fail); the translation is in the
     [res] monad because `copy_from_slice` panics on a length mismatch.  Both sides are computed (the
@@ -281,4 +357,67 @@ Lemma leaf_wire_create_keepalive_packet_ext_ok info now :
   Ok (Wire.create_keepalive_packet_ext info now) = leaf_wire_create_keepalive_packet_ext info now.
 Proof.
   intros H. do 7 (destruct info as [|? info]; try discriminate H). clear H. wire_build.
+Qed.
+
+(** create_ack_packet: `vec![0u8; 4 + 4 * acks.len()]`, three stores in the header, then
+    `for (i, &ack) in acks.iter().enumerate()`, translated as a Fixpoint by structural recursion on the
+    list (no fuel) with the counter i; every store is a [splice].  [splice_spec] is the only fact about
+    [splice] the proofs use: a store inside the buffer succeeds, keeps the length and fixes the prefix
+    up to its end. *)
+Lemma splice_spec d lo hi s :
+  0 <= lo <= hi -> hi <= blen d -> blen s = hi - lo ->
+  exists d', splice d lo hi s = Ok d' /\ blen d' = blen d /\
+             (forall n, n = Z.to_nat hi -> firstn n d' = firstn (Z.to_nat lo) d ++ s).
+Proof.
+  intros H1 H2 H3. unfold splice.
+  replace ((0 <=? lo) && (lo <=? hi) && (hi <=? blen d) && (blen s =? hi - lo)) with true by lia.
+  eexists. split; [reflexivity|]. unfold blen in *. split.
+  - rewrite !app_length, firstn_length, skipn_length. lia.
+  - intros n ->. rewrite app_assoc, firstn_app.
+    rewrite app_length, firstn_length.
+    replace (Z.to_nat hi - (Nat.min (Z.to_nat lo) (length d) + length s))%nat with 0%nat by lia.
+    cbn [firstn]. rewrite app_nil_r. apply firstn_all2. rewrite app_length, firstn_length. lia.
+Qed.
+
+Ltac blen_lit := unfold blen; cbn [be_bytes length]; lia.
+
+Ltac splice_step :=
+  match goal with |- context [splice ?d ?lo ?hi ?s] =>
+    let d' := fresh "d" in let E := fresh "E" in let L := fresh "L" in let F := fresh "F" in
+    destruct (splice_spec d lo hi s) as (d' & E & L & F);
+    [ lia | lia | first [ lia | blen_lit ] | rewrite E; cbv beta iota delta [bind] ]
+  end.
+
+Lemma blen_cons (a : Z) l : blen (a :: l) = blen l + 1.
+Proof. unfold blen. cbn [length]. lia. Qed.
+
+Lemma blen_repeat (x : Z) n : blen (repeat x n) = Z.of_nat n.
+Proof. unfold blen. rewrite repeat_length. reflexivity. Qed.
+
+Lemma leaf_wire_create_ack_packet_loop1_ok : forall l i pkt,
+  0 <= i -> blen pkt = 4 + 4 * (i + blen l) -> 4 + 4 * (i + blen l) < two64 ->
+  leaf_wire_create_ack_packet_loop1 l i pkt
+  = Ok (firstn (Z.to_nat (4 + 4 * i)) pkt ++ concat (map (be_bytes 4) l)).
+Proof.
+  unfold two64.
+  induction l as [|a l IH]; intros i pkt Hi Hp Hb; cbn [leaf_wire_create_ack_packet_loop1 map concat].
+  - change (blen (@nil Z)) with 0 in Hp. rewrite app_nil_r, firstn_all2; [reflexivity|]. unfold blen in Hp. lia.
+  - pose proof (blen_cons a l) as Hc. assert (0 <= blen l) by (unfold blen; lia).
+    cbv zeta delta [two64]. repeat wire_step.
+    splice_step.
+    rewrite IH by lia. rewrite (F _) by lia. rewrite <- app_assoc.
+    do 2 f_equal. f_equal. lia.
+Qed.
+
+Lemma leaf_wire_create_ack_packet_ok acks :
+  4 + 4 * blen acks < two64 -> Ok (Wire.create_ack_packet acks) = leaf_wire_create_ack_packet acks.
+Proof.
+  unfold two64. intros Hb. assert (0 <= blen acks) by (unfold blen; lia).
+  cbv beta zeta delta [Wire.create_ack_packet leaf_wire_create_ack_packet two64].
+  repeat wire_step.
+  match goal with |- context [repeat 0 ?n] => pose proof (blen_repeat 0 n); generalize dependent (repeat 0 n); intros end.
+  repeat splice_step.
+  rewrite leaf_wire_create_ack_packet_loop1_ok by (unfold two64; lia).
+  repeat match goal with F : forall n, n = _ -> firstn n ?d = _ |- context [firstn _ ?d] => rewrite (F _) by lia end.
+  cbn [Z.to_nat firstn app]. rewrite <- !app_assoc. reflexivity.
 Qed.
